@@ -43,13 +43,17 @@ AND_LIKE = {"all", "min", "prod"}
 
 
 def run(ctx: Context, col) -> None:
+    from .common import Parts
+
+    part = Parts()
     cls = ctx.ct.get("PolicyIteration")
     file = cls.module.relpath
-    _kernel(ctx, cls, file, col)
-    _eval_loop(ctx, cls, file, col)
-    _change_count(ctx, cls, file, col)
-    _ordering(ctx, cls, file, col)
-    _initial_policy(ctx, cls, file, col)
+    part(_kernel, ctx, cls, file, col)
+    part(_eval_loop, ctx, cls, file, col)
+    part(_change_count, ctx, cls, file, col)
+    part(_ordering, ctx, cls, file, col)
+    part(_initial_policy, ctx, cls, file, col)
+    part.finish()
     for r_, n in (("R5.1", 1), ("R5.2", 3), ("R5.3", 2), ("R5.4", 3), ("R5.5", 4)):
         col.floor(r_, n)
 
